@@ -210,6 +210,7 @@ def run_tlc(ctx, module, cfg, workers="auto", simulate=None, depth=None, extra_f
     r.wall = time.time() - t0
     r.rc = p.returncode
     r.out = p.stdout
+    ctx.last_tlc_out = r.out
     m = re.findall(r"(\d+) states generated, (\d+) distinct states found", r.out)
     if m:
         r.generated, r.distinct = int(m[-1][0]), int(m[-1][1])
